@@ -51,6 +51,21 @@ Proof. eapply centered_compose; eassumption. Qed.
 Theorem C02_step_programs : forall Ks u,
   fold_left (step F Finv S Sinv) Ks (clip n m u) = cust u (fold_left fmul Ks fone) fone.
 Proof. eapply steps_fold; eassumption. Qed.
+Theorem C02_step_programs_numpy_fresnel : forall Ks u,
+  fold_left (cstep F Finv S Sinv) Ks (clip n m u) = cent u (fold_left fmul Ks fone).
+Proof. eapply csteps_fold; eassumption. Qed.
+(* glue of the two levels: propagating through the distances z1 ... zk one after the other with the kernels of ONE family
+   whose per-pixel phase is additive in z equals one propagation by z1 + ... + zk (both forms of the forward model) *)
+Theorem C02_distance_programs : forall ph : nat -> nat -> R -> R,
+  (forall i j z1 z2, ph i j (z1 + z2) = ph i j z1 + ph i j z2) ->
+  forall zs u,
+  fold_left (step F Finv S Sinv) (map (kfam ph) zs) (clip n m u) = cust u (kfam ph (fold_left Rplus zs 0)) fone /\
+  fold_left (cstep F Finv S Sinv) (map (kfam ph) zs) (clip n m u) = cent u (kfam ph (fold_left Rplus zs 0)).
+Proof.
+  intros ph Hadd zs u. rewrite <- (kfam_product ph Hadd zs). split.
+  - eapply steps_fold; eassumption.
+  - eapply csteps_fold; eassumption.
+Qed.
 End Contracts.
 
 (* pad-then-crop at distance 0: with the transforms of the DOUBLED grid (2n x 2m), zero-padding u, propagating by
